@@ -107,6 +107,11 @@ class PhaseShifter(Component):
     mode: int
     phi: float | Parameter
 
+    def validate(self) -> None:
+        """Validates that the phase shift is a finite real number."""
+        if not (np.isreal(self._phi) and np.isfinite(self._phi)):
+            raise ValueError("Phase shift must be a finite real number.")
+
     @property
     def _phi(self) -> float:
         if isinstance(self.phi, Parameter):
@@ -114,6 +119,7 @@ class PhaseShifter(Component):
         return self.phi
 
     def get_unitary(self, n_modes: int) -> np.ndarray:  # noqa: D102
+        self.validate()
         unitary = np.identity(n_modes, dtype=complex)
         unitary[self.mode, self.mode] = np.exp(1j * self._phi)
         return unitary
